@@ -23,6 +23,33 @@ func rootsFor(prop, tier string) []Root {
 		rs = append(rs, Root{Prop: prop, Harness: h, Params: append([]int{}, params...)})
 	}
 	switch prop {
+	case "C10":
+		for _, t := range []int{1, 2, 9, 3, 8} { // TINY SHORT INT24 LONG LONGLONG
+			add("VH_C10_Int", t, 0)
+			add("VH_C10_Int", t, 1)
+		}
+		add("VH_C10_Float", 0)
+		add("VH_C10_Float", 1)
+		add("VH_C10_Year")
+		add("VH_C10_Bit")
+		for _, via := range []int{0, 1} {
+			add("VH_C10_Enum", via, 1)
+			add("VH_C10_Enum", via, 2)
+			for sz := 1; sz <= 8; sz++ {
+				add("VH_C10_Set", via, sz)
+			}
+		}
+	case "C12":
+		add("VH_C12_Date", 10)
+		add("VH_C12_Date", 14)
+		add("VH_C12_TimeOld")
+		add("VH_C12_DateTimeOld")
+		add("VH_C12_TimestampOld")
+		for dec := 0; dec <= 6; dec++ {
+			add("VH_C12_Timestamp2", dec)
+			add("VH_C12_DateTime2", dec)
+			add("VH_C12_Time2", dec)
+		}
 	case "C17":
 		hi := 64
 		if thorough {
